@@ -64,6 +64,20 @@ def ldltSolve : (n : Nat) → Mat K n n → Vec K n → Except Nat (Vec K n)
     | .error k => .error (k+1)
     | .ok x' => .ok (consV (b0 / d0 - sumFin n (fun i => l[i] * x'[i])) x')
 
+/-- drop the first row and column -/
+@[inline] def minorM {n : Nat} (L : Mat K (n+1) (n+1)) : Mat K n n := Mat.ofFn fun i j => L[i.succ][j.succ]
+
+/-- solve `(L D Lᵀ) x = b` with stored factors (`L` unit lower triangular: only its strict lower part is read), by the
+    same elimination recursion as `ldltSolve`: forward elimination on the way down, back-substitution on the way up -/
+def solveLD : (n : Nat) → Mat K n n → Vec K n → Vec K n → Vec K n
+  | 0, _, _, _ => Vector.ofFn fun i => i.elim0
+  | n+1, L, D, b =>
+    let l : Vec K n := Vector.ofFn fun i => L[i.succ][(0 : Fin (n+1))]
+    let b0 := b[(0 : Fin (n+1))]
+    let b' : Vec K n := Vector.ofFn fun i => b[i.succ] - l[i] * b0
+    let x' := solveLD n (minorM L) (tailV D) b'
+    consV (b0 / D[(0 : Fin (n+1))] - sumFin n (fun i => l[i] * x'[i])) x'
+
 end
 
 section
